@@ -520,6 +520,36 @@ func streamWF(ctx *Ctx) *Result {
 		check(d, []byte(WideProgram(r)))
 		res.Count("wide", 1)
 	})
+	// operands in every varint size class: programs with more constants, fields and variables than the
+	// one- and two-byte classes hold (each operand value up to the count occurs once), and the
+	// operands exactly at the class boundaries used again at the end
+	classes := []int{2300, 2400}
+	if ctx.Tier == "thorough" {
+		classes = append(classes, 68000)
+	}
+	parallel(ctx.Pool, ctx.Seed+14, len(classes), func(i int, r *rand.Rand, d *Driver) {
+		n := classes[i]
+		var b strings.Builder
+		switch i % 2 {
+		case 0: // constants
+			for k := 0; k < n; k++ {
+				fmt.Fprintf(&b, "print %d\n", 100000+k)
+			}
+		default: // fields of one block (identifier constants), read back
+			b.WriteString("def t {\n")
+			for k := 0; k < n; k++ {
+				fmt.Fprintf(&b, "f%d = %d\n", k, k%7+2)
+			}
+			for _, k := range []int{239, 240, 241, 2286, 2287, 2288, 2289} {
+				if k < n {
+					fmt.Fprintf(&b, "g%d = f%d\n", k, k)
+				}
+			}
+			b.WriteString("}\n")
+		}
+		check(d, []byte(b.String()))
+		res.Count("size-classes", 1)
+	})
 	parallel(ctx.Pool, ctx.Seed+2, ctx.N(2500), func(i int, r *rand.Rand, d *Driver) {
 		g := NewGen(r)
 		g.MaxDepth = 1 + r.Intn(7)
@@ -1077,6 +1107,48 @@ func streamOptions(ctx *Ctx) *Result {
 	parallel(ctx.Pool, ctx.Seed+19, len(lim), func(i int, r *rand.Rand, d *Driver) {
 		checkOne(100+i, d, []byte(lim[i]), true)
 		res.Count("limit-ladder", 1)
+	})
+	// … and a runtime error or a warning at every distance from the end of the text: the disassembly
+	// has looked up every position up to the last line before the failing instruction's position is
+	// asked for (the order of look-ups is what the options change)
+	type dist struct{ before, after int }
+	var ds []dist
+	for before := 0; before <= 2; before++ {
+		for after := 0; after <= 24; after++ {
+			ds = append(ds, dist{before, after})
+		}
+	}
+	for _, after := range []int{31, 32, 33, 63, 64, 65, 127, 128, 129, 255, 256, 257} {
+		ds = append(ds, dist{1, after})
+	}
+	parallel(ctx.Pool, ctx.Seed+23, len(ds), func(i int, r *rand.Rand, d *Driver) {
+		filler := []string{"print 1\n", "\n", "# c\n", "var v%d = %d\n", "def t \"n%d\" { f = %d }\n"}
+		var b strings.Builder
+		n := 0
+		line := func() {
+			f := filler[r.Intn(len(filler))]
+			if strings.Contains(f, "%d") {
+				f = fmt.Sprintf(f, n, n)
+			}
+			n++
+			b.WriteString(f)
+		}
+		for k := 0; k < ds[i].before; k++ {
+			line()
+		}
+		switch i % 3 {
+		case 0:
+			b.WriteString("print 17 / 0\n")
+		case 1:
+			b.WriteString("def q { z = nope + 1 }\n")
+		default: // a warning: the second bind
+			b.WriteString("def w {}\nbind w -> struct\nbind w -> struct\n")
+		}
+		for k := 0; k < ds[i].after; k++ {
+			line()
+		}
+		checkOne(200+i, d, []byte(b.String()), true)
+		res.Count("distance-from-end", 1)
 	})
 	return res
 }
